@@ -307,7 +307,7 @@ def result_return_sites(body):
 
 # ------------------------------------------------------------------ A5 gate functions
 
-def gate_functions(prog, is_gate_call, extra_roots=()):
+def gate_functions(prog, is_gate_call, extra_roots=(), dead_edges_of=None):
     """Fixpoint: F is a gate function if every Ok(..) it can return is dominated by the success
     edge of a gate call (a call satisfying is_gate_call, or a call to a gate function), or is the
     pass-through result of a gate function. Returns dict did -> explanation."""
@@ -333,8 +333,12 @@ def gate_functions(prog, is_gate_call, extra_roots=()):
             ocs = {bi: success_edges(b, bi) for bi in gcalls}
             ok = True
             n_ok_sites = 0
+            dead = dead_edges_of(b) if dead_edges_of else set()
+            live = b.cfg.reachable_from([0], avoid_edges=dead) if dead else None
             for kind, bi, info in result_return_sites(b):
                 if kind in ("err", "residual"):
+                    continue
+                if live is not None and bi not in live:
                     continue
                 if kind == "call" and bi in gcalls:
                     n_ok_sites += 1
